@@ -50,7 +50,7 @@ def sample_sources():
 NOISE = ["#define n (n+1)", "#define aa bb", "#define bb aa", "k = n + aa", "#define chk(s) call r(chk(s))", "chk(1)", "#define i i", "#define do_x do_x + 1",
          "#if", "#define X \\", "#define Y(a,b) a\\b", "#endif", "#else", "#include \"x", "procedure(foo) :: bar", "end", "contains",
          "implicit &", " none", "type, extends(", "select type (x)", "type is (", "class default", "associate (a => b, c", "10 continue",
-         "do 10 i=1,", "interface", "module procedure ", "generic :: g => ", "end select", "where (a > 0)", "block", "critical", "enum, bind(c)",
+         "do 10 i=1,", "10 end do", "do 10 i=1,3", "interface", "module procedure ", "generic :: g => ", "end select", "where (a > 0)", "block", "critical", "enum, bind(c)",
          "submodule (", "private", "public :: ", "use ", "import, none", "   &", "'", '"', "!>", "!<", "!!", ";", ";;end;", "\t", "é", "\x00"]
 
 
@@ -97,6 +97,36 @@ def gen_inputs(rng, sources, n):
             t = text
         ext = rng.choice([".f90", ".F90", ".f", ".F"])
         out.append((name, kind, ext, t))
+    return out
+
+
+KEYWORD_LINES = ["select type (x)", "sel: select type (y => x%z)", "select case (k)", "type is (integer)", "class is (t_a)", "class default", "associate (a => b%c, d => e)",
+                 "type, extends(t_base), public :: t_child", "procedure(iface), pointer, nopass :: pp => null()", "generic, public :: assignment(=) => cp",
+                 "interface operator(.dot.)", "end interface operator(.dot.)", "module procedure impl_a, impl_b", "submodule (par:child) grand",
+                 "use, intrinsic :: iso_c_binding, only: c_int, cp => c_ptr", "import, only: a, b", "enum, bind(c)", "enumerator :: red = 1, green",
+                 "where (a > 0) b = 1", "forall (i = 1:n, j = 1:m, a(i, j) > 0)", "do concurrent (i = 1:n) local(x)", "block data bd", "critical (stat=ierr)",
+                 "character(len=:, kind=ck), allocatable :: s(:)", "real(kind=selected_real_kind(15, 307)), dimension(:,:), intent(inout) :: q",
+                 "pure elemental recursive function f(x) result(y) bind(c, name='f')", "10 format (1x, a, i0)", "if (a) then; b = 1; else if (c) then; end if",
+                 "public :: operator(+), assignment(=)", "integer function g(a, &"]
+
+
+def statement_prefixes(rng, sources, nlines):
+    """every character prefix of statements that the readers treat specially, placed where such a statement may stand (an editing
+    session between two keystrokes); taken from the catalogue above and from the sample sources"""
+    out = []
+    pool = list(KEYWORD_LINES)
+    for _ in range(nlines):
+        name, text = rng.choice(sources)
+        ls = [l for l in text.split("\n") if 3 < len(l.strip()) < 70]
+        if ls:
+            pool.append(rng.choice(ls).strip())
+    for stmt in KEYWORD_LINES + rng.sample(pool[len(KEYWORD_LINES):], min(len(pool) - len(KEYWORD_LINES), nlines)):
+        ext = rng.choice([".f90", ".F90"])
+        for c in range(1, len(stmt) + 1):
+            body = "  " + stmt[:c]
+            out.append(("catalogue", "stmt-prefix", ext, "module m_sp\nimplicit none\ninteger :: x\ncontains\nsubroutine s_sp(y)\nclass(*) :: y\n" + body))
+            if c % 4 == 0:
+                out.append(("catalogue", "stmt-prefix-closed", ext, "module m_sp\ncontains\nsubroutine s_sp(y)\n" + body + "\nend subroutine\nend module\n"))
     return out
 
 
@@ -267,9 +297,9 @@ def run(ctx):
     ctx.proof_obligations(search=lambda: search_failing(ctx))
     sources = sample_sources()
     q = ctx.quick()
-    inputs = list(CORPUS) + gen_inputs(ctx.rng, sources, 3000 if q else 60000)
+    inputs = list(CORPUS) + statement_prefixes(ctx.rng, sources, 25 if q else 400) + gen_inputs(ctx.rng, sources, 3000 if q else 60000)
     check_inputs(ctx, inputs, 250 if q else 4000)
-    check_server_path(ctx, list(CORPUS) + gen_inputs(ctx.rng, sources, 150 if q else 3000))
+    check_server_path(ctx, list(CORPUS) + statement_prefixes(ctx.rng, sources, 2 if q else 60)[::7] + gen_inputs(ctx.rng, sources, 150 if q else 3000))
 
 
 def replay(ctx, path):
